@@ -14,15 +14,20 @@ package nsqd
 //@ pred r4CPeersBox(r any) := r == nil || (dyntype(r) == typetag("[]*lookupPeer") &&
 //@      (forall k int :: {unbox(r, "[]*lookupPeer")[k]} 0 <= k && k < len(unbox(r, "[]*lookupPeer")) ==> unbox(r, "[]*lookupPeer")[k] != nil))
 //@ ghost[free] r4CLoaded any
+//   (integration) inside nsqd this scoped extern replaces the general atomic.Value model of lib/trusted/r4E.spec, so it repeats that model's
+//   clauses: the content of a cell is a function of (cell, epoch r4EAtomTick); Store advances the epoch and changes only its own cell.
 //@ extern[in github.com/nsqio/nsq/nsqd] (*sync/atomic.Value).Load(v) (r)
 //@   ensures[peers-cell-holds-peers] r4CPeersCell(v) ==> r4CPeersBox(r)
+//@   ensures[content-at-this-epoch] r == r4EAtomAt(v, r4EAtomTick)
 //@   modifies r4CLoaded
 //@   onreturn r4CLoaded := r
 
 // Store: the guarantee side of the cell invariant (an obligation at n.lookupPeers.Store(..) in lookupLoop); storing has no other effect.
 //@ extern[in github.com/nsqio/nsq/nsqd] (*sync/atomic.Value).Store(v, x)
 //@   requires[peers-cell-gets-peers] r4CPeersCell(v) ==> r4CPeersBox(x) && x != nil
-//@   modifies
+//@   ensures[stored-at-the-next-epoch] r4EAtomTick == old(r4EAtomTick) + 1 && r4EAtomAt(v, r4EAtomTick) == x
+//@   ensures[other-cells-kept] forall w *sync/atomic.Value :: {r4EAtomAt(w, r4EAtomTick)} w != v ==> r4EAtomAt(w, r4EAtomTick) == r4EAtomAt(w, old(r4EAtomTick))
+//@   modifies r4EAtomTick
 
 // lookupdHTTPAddrs (was a trusted stub). From C16: "A topic first created on an nsqd starts with every non-ephemeral channel
 // its nsqlookupds already know for it": GetTopic asks the addresses returned here, so the list must name EVERY lookup peer
